@@ -356,3 +356,154 @@ pub fn agg_long(ev: Ev) -> Vec<String> {
     out
 }
 
+
+/// every function name and alias of the evaluator: wrong arities, bad commas, wrong closers,
+/// juxtaposition and operator contexts of depth <= 2; plus keyword near-misses at edit distance 1
+pub fn per_name(ev: Ev) -> Vec<String> {
+    let mut out = Vec::new();
+    let names: Vec<(&str, Func)> = func_names(ev).to_vec();
+    for (name, f) in &names {
+        let good_args = match f.arity() {
+            Arity::Fixed(1) => "2",
+            Arity::Fixed(_) => "2,3",
+            _ => "2,3,5",
+        };
+        for args in ["", "2", "2,3", "2,3,5", "2,", ",2", "2,,3", "2 3", "(2)", "2,3,"] {
+            out.push(format!("{}({})", name, args));
+        }
+        let call = format!("{}({})", name, good_args);
+        for closer in ["", "]", "⌋", "⌉", "))", ",", ")("] {
+            out.push(format!("{}({}{}", name, good_args, closer));
+        }
+        // the name followed by one stray token instead of its opening bracket, then an argument and a closer
+        for stray in ["-", "+", ",", "@", "!", "*", "/", "^", ".", "2", "((", ")", "⌊", "°"] {
+            out.push(format!("{}{}2)", name, stray));
+            out.push(format!("{}{}2.5)", name, stray));
+            out.push(format!("{}{}(2)", name, stray));
+            out.push(format!("1+{}{}{})*2", name, stray, good_args));
+        }
+        // the empty call in the contexts of a value (well-formed for the aggregates that accept no argument)
+        let empty = format!("{}()", name);
+        for ctx in ["{}(3)", "{}3", "2{}", "{}abs(2)", "{}^2", "-{}", "2*{}", "{}+1", "({})", "1+{}(3)", "2{}(3)", "{}{}", "pow({},2)"] {
+            out.push(ctx.replace("{}", &empty));
+        }
+        out.push(name.to_string());
+        out.push(format!("{}2", name));
+        out.push(format!("{} (2)", name));
+        out.push(format!("{}[{}]", name, good_args));
+        for ctx in [
+            "2{}", "{}(2)", "{}2", "{}^2", "{}²", "-{}", "2^{}", "2*{}", "{}*2", "({})", "{}{}", "2+{}", "{}-2",
+            "@{}", "{}@", "2/{}", "abs({})", "pow({},2)", "pow(2,{})",
+        ] {
+            out.push(ctx.replace("{}", &call));
+        }
+        if ev.has_factorial() {
+            out.push(format!("{}!", call));
+            out.push(format!("2!{}", call));
+        }
+        if ev.has_consts() {
+            out.push(format!("pi{}", call));
+            out.push(format!("{}pi", call));
+        }
+        if ev != Ev::Cpx {
+            out.push(format!("min({},1)", call));
+            out.push(format!("avg({})", call));
+        }
+        if ev.has_floor_brackets() {
+            out.push(format!("⌊{}⌋", call));
+            out.push(format!("{}⌈2⌉", call));
+        }
+        // keyword near-misses: every deletion, and substitutions / insertions over the keyword letters
+        let letters: Vec<char> = "abcdefgilmnopqrstuvwx2_".chars().collect();
+        let kw: Vec<char> = name.chars().collect();
+        let tail = format!("({})", good_args);
+        for i in 0..kw.len() {
+            let mut d = kw.clone();
+            d.remove(i);
+            out.push(format!("{}{}", d.iter().collect::<String>(), tail));
+            for &l in &letters {
+                if l != kw[i] {
+                    let mut s = kw.clone();
+                    s[i] = l;
+                    out.push(format!("{}{}", s.iter().collect::<String>(), tail));
+                }
+            }
+        }
+        for i in 0..=kw.len() {
+            for &l in &letters {
+                let mut s = kw.clone();
+                s.insert(i, l);
+                out.push(format!("{}{}", s.iter().collect::<String>(), tail));
+            }
+        }
+    }
+    // names of the other evaluators in this evaluator
+    for other in ALL_EVS {
+        for (name, f) in func_names(other) {
+            let good_args = match f.arity() {
+                Arity::Fixed(1) => "2",
+                Arity::Fixed(_) => "2,3",
+                _ => "2,3,5",
+            };
+            out.push(format!("{}({})", name, good_args));
+        }
+    }
+    for c in ["pi", "π", "e", "i", "rad", "2rad", "2°", "2pi", "pi2", "e2", "2e", "ee", "pie", "pipi", "@@", "2@", "@2", "π2"] {
+        out.push(c.to_string());
+    }
+    out.sort();
+    out.dedup();
+    out
+}
+
+
+/// a call nested in an argument slot of another call, with every slip of argument count, separator and
+/// closer on the inner and on the outer call (the inner slip must not be absorbed by the outer call)
+pub fn nested_slips(ev: Ev) -> Vec<String> {
+    let mut firsts: Vec<(&str, Func)> = Vec::new();
+    for (name, f) in func_names(ev) {
+        if !firsts.iter().any(|(_, g)| g == f) {
+            firsts.push((name, *f));
+        }
+    }
+    let mut out = Vec::new();
+    for (outer, _) in &firsts {
+        for (inner, _) in &firsts {
+            for slot in ["", "2,", "2,3,"] {
+                for iargs in ["", "4", "4,2", "4,2,3"] {
+                    for icl in [")", "", ",", "),", "))"] {
+                        for tail in ["", ",3", ",3,5", "+1"] {
+                            for ocl in [")", ""] {
+                                out.push(format!("{}({}{}({}{}{}{}", outer, slot, inner, iargs, icl, tail, ocl));
+                            }
+                        }
+                    }
+                }
+            }
+        }
+    }
+    // brackets and floor / ceiling brackets as the inner or outer construct
+    let mut groups: Vec<(&str, &str)> = vec![("(", ")")];
+    if ev.has_floor_brackets() {
+        groups.push(("⌊", "⌋"));
+        groups.push(("⌈", "⌉"));
+    }
+    for (outer, _) in &firsts {
+        for (o, c) in &groups {
+            for iargs in ["4", "4,2", ""] {
+                for icl in [*c, "", ","] {
+                    for slot in ["", "2,"] {
+                        for tail in ["", ",3", ")"] {
+                            out.push(format!("{}({}{}{}{}{})", outer, slot, o, iargs, icl, tail));
+                            out.push(format!("{}{}({}{}{}{}", o, outer, slot, iargs, icl, tail));
+                        }
+                    }
+                }
+            }
+        }
+    }
+    out.sort();
+    out.dedup();
+    out
+}
+
